@@ -1,0 +1,38 @@
+//go:build verif
+
+// Contracts for the deductive verifier in /verif (comment-only file; see /verif/DESIGN.md).
+
+package ssm
+
+// A snapshot of a collector, abstractly: the total and the per-user entries (trusted interface contract:
+// whatever implementation is behind stats.Collector, a call to Snapshot returns these values).
+//@ uninterp snapLen(c stats.Collector) int
+//@ uninterp snapName(c stats.Collector, i int) string
+//@ uninterp snapDown(c stats.Collector, i int) uint64
+//@ uninterp snapUp(c stats.Collector, i int) uint64
+//@ uninterp snapTotalDown(c stats.Collector) uint64
+//@ uninterp snapTotalUp(c stats.Collector) uint64
+
+//@ func (github.com/database64128/shadowsocks-go/stats.Collector).Snapshot
+//@   trusted
+//@   params self
+//@   modifies nothing
+//@   ensures len(result.Users) == snapLen(self) && result.Traffic.DownlinkBytes == snapTotalDown(self) && result.Traffic.UplinkBytes == snapTotalUp(self)
+//@   ensures forall i int :: 0 <= i && i < len(result.Users) ==> result.Users[i].Name == snapName(self, i) && result.Users[i].Traffic.DownlinkBytes == snapDown(self, i) && result.Users[i].Traffic.UplinkBytes == snapUp(self, i)
+
+//@ func (github.com/database64128/shadowsocks-go/stats.Collector).SnapshotAndReset
+//@   trusted
+//@   params self
+//@   modifies nothing
+
+// GET /servers/{s}/stats: "clear" (empty or "true", given once) selects the snapshot-and-reset variant, and only then.
+//@ func handleGetStats
+//@   callsite SnapshotAndReset: len(v) == 1 && (v[0] == "" || v[0] == "true")
+//@   callsite Snapshot: !(len(v) == 1 && (v[0] == "" || v[0] == "true"))
+
+// GET /servers/{s}/users/{u}: the 200 answer carries THAT user's traffic (the entry named u of a snapshot, zero if none).
+//@ func handleGetUser
+//@   loop 0 modifies nothing
+//@   loop 0 invariant rangeindex < snapLen(s.StatsCollector)
+//@   loop 0 invariant forall j int :: 0 <= j && j <= rangeindex ==> snapName(s.StatsCollector, j) != username
+//@   callsite EncodeResponse: arg1 == 200 ==> ((exists i int :: 0 <= i && i < snapLen(s.StatsCollector) && snapName(s.StatsCollector, i) == username && unbox(arg2).Traffic.DownlinkBytes == snapDown(s.StatsCollector, i) && unbox(arg2).Traffic.UplinkBytes == snapUp(s.StatsCollector, i)) || ((forall i int :: 0 <= i && i < snapLen(s.StatsCollector) ==> snapName(s.StatsCollector, i) != username) && unbox(arg2).Traffic.DownlinkBytes == 0 && unbox(arg2).Traffic.UplinkBytes == 0))
